@@ -17,14 +17,15 @@ C[E + "Date.__date_pre"] = dict(params={"format": "text"}, raises={}, requires="
 C["pregex.core.classes.__Class.__or__"] = dict(params={"self": ["Class"], "pre": ["Class", "str1"]}, raises={},
                                               returns="opaque_class", assumed=True)
 
+ALLT = ["Alternation", "Assertion", "Class", "Empty", "Group", "Other", "Quantifier", "Token"]
 INTB = "(INT(x) or BOOLV(x))"     # what isinstance(x, int) accepts
 
 C[E + "__Integer.__init__"] = dict(
-    params={"self": "newobj", "sign": ["Empty", "Other", "Alternation", "Assertion", "Token"], "start": "dyn", "end": "dyn",
+    params={"self": "newobj", "sign": ALLT, "start": "dyn", "end": "dyn",
             "is_extensible": "bool"},
     raises={"InvalidArgumentTypeException": "not INT(start) or not INT(end)",
             "InvalidArgumentValueException": "INT(start) and INT(end) and (start < 0 or start > end)"},
-    ensures="True", returns="none", frame=FR)
+    ensures="True", returns="opaque_init", frame=FR)
 
 C[E + "Numeral.__init__"] = dict(
     params={"self": "newobj", "base": "intnb", "n_min": "dyn", "n_max": "dyn", "is_extensible": "bool"},
@@ -36,11 +37,11 @@ C[E + "Numeral.__init__"] = dict(
     loops={1: {"inv": "PREGEX(pre) and TYPE(pre) == 'Class'"}}, frame=FR)
 
 C[E + "__Decimal.__init__"] = dict(
-    params={"self": "newobj", "integer_part": ["Other", "Assertion"], "no_integer_part": ["none", "Assertion", "Other"],
+    params={"self": "newobj", "integer_part": ALLT, "no_integer_part": ["none", "Assertion", "Group"],
             "min_decimal": "dyn", "max_decimal": "dyn", "is_extensible": "bool"},
     raises={"InvalidArgumentTypeException": "not INT(min_decimal) or (min_decimal >= 1 and not INT(max_decimal) and not NONE(max_decimal))",
             "InvalidArgumentValueException": "INT(min_decimal) and (min_decimal < 1 or (INT(max_decimal) and min_decimal > max_decimal))"},
-    ensures="True", returns="none", frame=FR)
+    ensures="True", returns="opaque_init", frame=FR, max_paths=60000)
 
 C[E + "Word.__init__"] = dict(
     params={"self": "newobj", "min_chars": "intx", "max_chars": "intx", "is_global": "bool", "is_extensible": "bool"},
@@ -60,3 +61,29 @@ C[E + "Date.__init__"] = dict(
     params={"self": "newobj", "formats": "formats", "is_extensible": "bool"},
     raises={"InvalidArgumentValueException": "not ALLDOC(formats)"},
     ensures="True", returns="none", lists="concrete", frame=FR)
+
+
+# ---- the public Integer / Decimal classes: the template's documented conditions, unchanged ---------------------------
+INT_T = "not INT(start) or not INT(end)"
+INT_V = "INT(start) and INT(end) and (start < 0 or start > end)"
+INT_OK = "INT(start) and INT(end) and 0 <= start and start <= end"
+for cls in ("Integer", "PositiveInteger", "NegativeInteger", "UnsignedInteger"):
+    ps = {"self": "newobj", "start": "dyn", "end": "dyn"}
+    if cls == "Integer":
+        ps["include_sign"] = "bool"
+    ps["is_extensible"] = "bool"
+    C[E + cls + ".__init__"] = dict(
+        params=ps, raises={"InvalidArgumentTypeException": INT_T, "InvalidArgumentValueException": INT_V},
+        ensures="True", returns="opaque_init", frame=FR)
+for cls in ("Decimal", "PositiveDecimal", "NegativeDecimal", "UnsignedDecimal"):
+    ps = {"self": "newobj", "start": "dyn", "end": "dyn", "min_decimal": "dyn", "max_decimal": "dyn"}
+    if cls == "Decimal":
+        ps["include_sign"] = "bool"
+    ps["is_extensible"] = "bool"
+    C[E + cls + ".__init__"] = dict(
+        params=ps,
+        raises={"InvalidArgumentTypeException": f"({INT_T}) or (({INT_OK}) and (not INT(min_decimal) or (min_decimal >= 1 and "
+                                                "not INT(max_decimal) and not NONE(max_decimal))))",
+                "InvalidArgumentValueException": f"({INT_V}) or (({INT_OK}) and INT(min_decimal) and (min_decimal < 1 or "
+                                                 "(INT(max_decimal) and min_decimal > max_decimal)))"},
+        ensures="True", returns="opaque_init", frame=FR, max_paths=60000)
